@@ -69,7 +69,7 @@ def run(ctx):
     del g
     # rounds 0..2 of the same configuration (the Byzantine validator proposes in round 2): simulation
     mcs2 = cc.net_mc(ctx, "C01_small_sim", info, byz, 2, lazy=False, view=False)
-    nb2 = 80 if quick else 3000
+    nb2 = 40 if quick else 3000
     rS2 = ctx.tlc(mcs2, mcs2 + ".cfg", simulate="file=%s,num=%d" % (os.path.join(ctx.spec_copy(), "behA"), nb2),
                   depth=80, seed=ctx.seed, workers=1, timeout=1500, label="C01_small_sim")
     if rS2.violations or rS2.errors:
@@ -91,17 +91,17 @@ def run(ctx):
                                "tlc_states": rA2.distinct})
     # graph paths as they are; simulated prefixes and random walks are completed by the synchronous-suffix
     # executor so that every run ends in decisions reached from an adversarial prefix
-    inp = {"mode": "replay", "powers": powers, "byz": byz, "maxround": 12, "scheds": scheds, "random": 0}
+    inp = {"mode": "replay", "powers": powers, "byz": byz, "maxround": 9, "scheds": scheds, "random": 0}
     rows, stats = cc.run_driver(ctx, binp, inp, "A")
-    inp2 = {"mode": "replay", "powers": powers, "byz": byz, "maxround": 12, "scheds": sims, "synctail": True, "byzafter": True,
-            "random": 60 if quick else 1500, "randlen": 150}
+    inp2 = {"mode": "replay", "powers": powers, "byz": byz, "maxround": 9, "scheds": sims, "synctail": True, "byzafter": True,
+            "random": 30 if quick else 1500, "randlen": 150}
     rows2, stats2 = cc.run_driver(ctx, binp, inp2, "A2")
     off = max([r["run"] for r in rows] + [0])
     for r in rows2:
         r["run"] += off
     rows += rows2
     stats = {k: stats[k] + stats2[k] for k in stats}
-    v = cc.validate(ctx, rows, info, byz, 12, "A", dedupe=True)
+    v = cc.validate(ctx, rows, info, byz, 9, "A", dedupe=True)
     account(v, rows, "2+1 powers 2:2:1")
     cov["configs"].append({"config": "2 correct + 1 Byzantine, powers 2:2:1, rounds 0..%d" % mr, "exhaustive": True,
                            "tlc_states": rA.distinct, "graph_nodes_replayed": graph_nodes, "schedules": len(scheds),
@@ -120,15 +120,19 @@ def run(ctx):
             raise Undecided("vacuity: weakened spec %s is not refuted by TLC on the 2+1 config" % weak)
 
     # ---------------- C. 3 correct + 1 Byzantine: simulation of the real spec + attack library ----
-    for (tag, powers, bi, label) in (("eq0", [1, 1, 1, 1], 0, "3+1 equal powers, Byzantine proposer of round 0"),
-                                     ("eq1", [1, 1, 1, 1], 1, "3+1 equal powers, Byzantine proposer of round 1"),
-                                     ("eq3", [1, 1, 1, 1], 3, "3+1 equal powers, Byzantine never proposes"),
-                                     ("w2", [2, 2, 1, 1], 2, "3+1 powers 2:2:1:1 (total divisible by 3)")):
+    cfgs3 = [("eq0", [1, 1, 1, 1], 0, "3+1 equal powers, Byzantine proposer of round 0"),
+             ("eq1", [1, 1, 1, 1], 1, "3+1 equal powers, Byzantine proposer of round 1"),
+             ("eq3", [1, 1, 1, 1], 3, "3+1 equal powers, Byzantine never proposes"),
+             ("w2", [2, 2, 1, 1], 2, "3+1 powers 2:2:1:1 (total divisible by 3)")]
+    if quick:          # two of the four configurations per quick run, rotating with the seed; all four in thorough
+        k = ctx.seed % 2
+        cfgs3 = [cfgs3[k], cfgs3[2 + k]]
+    for (tag, powers, bi, label) in cfgs3:
         mr3 = 2
         info3 = cc.run_driver(ctx, binp, {"mode": "info", "powers": powers, "byz": [], "maxround": 14}, "info" + tag)
         byz3 = [info3["names"][bi]]
         mcs = cc.net_mc(ctx, "C01_sim_" + tag, info3, byz3, mr3, lazy=False, view=False)
-        nb = 60 if quick else 3000
+        nb = 30 if quick else 3000
         pref = "beh" + tag
         rS = ctx.tlc(mcs, mcs + ".cfg", simulate="file=%s,num=%d" % (os.path.join(ctx.spec_copy(), pref), nb),
                      depth=70, seed=ctx.seed, workers=1, timeout=1500, label="C01_sim_" + tag)
@@ -140,10 +144,10 @@ def run(ctx):
         attacks = [a for a in load_attacks() if a["powers"] == powers and a["byz"] == byz3] + cc.load_prefixes(powers, byz3)
         for k, a in enumerate(attacks):
             scheds.append({"id": 100000 + k, "steps": a["steps"]})
-        inp = {"mode": "replay", "powers": powers, "byz": byz3, "maxround": 12, "scheds": scheds, "synctail": True, "byzafter": True,
-               "random": 40 if quick else 1500, "randlen": 200}
+        inp = {"mode": "replay", "powers": powers, "byz": byz3, "maxround": 9, "scheds": scheds, "synctail": True, "byzafter": True,
+               "random": 25 if quick else 1500, "randlen": 200}
         rows, stats = cc.run_driver(ctx, binp, inp, tag)
-        v = cc.validate(ctx, rows, info3, byz3, 12, tag, dedupe=True)
+        v = cc.validate(ctx, rows, info3, byz3, 9, tag, dedupe=True)
         account(v, rows, label)
         cov["configs"].append({"config": label + ", rounds 0..%d" % mr3, "exhaustive": False,
                                "simulated_behaviours": len(scheds) - len(attacks), "attack_schedules": [a["name"] for a in attacks],
